@@ -942,19 +942,31 @@ def cause_of(minimal: str) -> Optional[str]:
 
 
 def respellings(pattern: str) -> List[str]:
-    """The pattern with every ``\\xHH`` of a metacharacter replaced by a harmless letter."""
+    """
+    The pattern with every ``\\xHH`` of a metacharacter spelt in a way that does not
+    depend on the order of un-escaping and parsing: first the same character behind a
+    backslash (the same language), then harmless letters (one per occurrence, so that
+    no two ranges collide), then one harmless letter for all.
+    """
     toks = rg.tokens_of(pattern)
-    out = []
-    for letter in ("a", "0", " ", "\u0101", "~"):
+
+    def respell(choose: Any) -> str:
         respelt = []
+        k = 0
         for i, tok in enumerate(toks):
             if len(tok) == 4 and tok.startswith("\\x") and chr(int(tok[2:], 16)) in _METACHARS:
-                respelt.append(letter)
+                respelt.append(choose(chr(int(tok[2:], 16)), k))
+                k += 1
             elif tok == "x" and i >= 1 and toks[i - 1] == "\\\\":
                 respelt.append("y")
             else:
                 respelt.append(tok)
-        out.append("".join(respelt))
+        return "".join(respelt)
+
+    out = [respell(lambda ch, k: "\\" + ch)]
+    out.append(respell(lambda ch, k: "\u0101\u0111\u0121\u0131\u0141\u0151\u0161\u0171"[k % 8]))
+    for letter in ("a", "0", " ", "\u0101", "~"):
+        out.append(respell(lambda ch, k, letter=letter: letter))
     return out
 
 
@@ -977,6 +989,53 @@ def _facet_of(pattern: str) -> Tuple[Optional[str], Optional[Any]]:
     if translated is None:
         return None, None
     return translated, xsd_facet_regex(translated)
+
+
+def refusal_points_at_undone_escape(pattern: str, stderr: str) -> Optional[str]:
+    """
+    The refusal quotes the pattern *after* the un-escaping of ``\\xHH`` and points (``^``)
+    at a character that was such an escape of a metacharacter, or within two tokens of it
+    (the parser reports some errors after having consumed the construct).
+    """
+    toks = rg.tokens_of(pattern)
+    undone: List[str] = []
+    origin: List[int] = []
+    for ti, tok in enumerate(toks):
+        if len(tok) == 4 and tok.startswith("\\x"):
+            try:
+                undone.append(chr(int(tok[2:], 16)))
+                origin.append(ti)
+                continue
+            except ValueError:
+                pass
+        for ch in tok:
+            undone.append(ch)
+            origin.append(ti)
+    text = "".join(undone)
+
+    def is_undone_metachar(ti: int) -> bool:
+        if not 0 <= ti < len(toks):
+            return False
+        tok = toks[ti]
+        if len(tok) != 4 or not tok.startswith("\\x"):
+            return False
+        try:
+            return chr(int(tok[2:], 16)) in _METACHARS
+        except ValueError:
+            return False
+
+    lines = stderr.split("\n")
+    for i in range(len(lines) - 1):
+        quoted, pointer = lines[i], lines[i + 1]
+        if quoted.strip() != text.strip() or pointer.strip() != "^":
+            continue
+        column = pointer.index("^") - (len(quoted) - len(quoted.lstrip(" ")))
+        if not 0 <= column < len(origin):
+            continue
+        ti = origin[column]
+        if any(is_undone_metachar(t) for t in range(ti - 2, ti + 3)):
+            return "x-escape-of-metacharacter-undone-before-parsing"
+    return None
 
 
 def confirmed_cause_of_refusal(pattern: str) -> Optional[str]:
